@@ -109,7 +109,7 @@ public:
   terminal_param_t init() const final { return random::between(min, upp); }
 
   std::string display(terminal_param_t v, format) const final
-  { return std::to_string(static_cast<int>(v)); }
+  { return std::to_string(static_cast<int>(v)) + ".0"; }
 
   value_t eval(symbol_params &p) const final
   {
